@@ -339,6 +339,21 @@ func init() {
 		"$ref": func(g *gen, s *jv.V, d int, desc bool) {
 			if r := g.refTarget(desc); r != "" {
 				s.Set("$ref", str(r))
+				if g.o.Draft == refmodel.D7 && g.coin(3, "ignoredsibling") {
+					// draft-07: a sibling that would reject everything if it were honoured
+					switch g.intn(5, "ignoredsiblingkind") {
+					case 0:
+						s.Set("not", boolean(true))
+					case 1:
+						s.Set("not", obj())
+					case 2:
+						s.Set("enum", &jv.V{K: jv.Arr, A: []*jv.V{}})
+					case 3:
+						s.Set("allOf", jv.ArrV(boolean(false)))
+					default:
+						s.Set("required", jv.ArrV(str("no-such-property-anywhere")))
+					}
+				}
 			}
 		},
 		// draft-07 only
